@@ -94,7 +94,7 @@ func verifFill(src []byte, v interface{}, stream bool) error {
 }
 
 // wire items: parsable and unparsable values of every kind, and an unsupported kind
-var verifItems = []SpecificValue{{ValKind: KindInt, ValStr: "7"}, {ValKind: KindInt, ValStr: "x"}, {ValKind: KindString, ValStr: "x"}, {ValKind: KindString, ValStr: "7"},
+var verifItems = []SpecificValue{{ValKind: KindInt, ValStr: "7"}, {ValKind: KindInt, ValStr: "13800138000"}, {ValKind: KindInt, ValStr: "x"}, {ValKind: KindString, ValStr: "x"}, {ValKind: KindString, ValStr: "7"},
 	{ValKind: KindBool, ValStr: "true"}, {ValKind: KindBool, ValStr: "x"}, {ValKind: KindFloat64, ValStr: "1.5"}, {ValKind: KindFloat64, ValStr: "7"}, {ValKind: KindFloat64, ValStr: "x"}, {ValKind: KindSum, ValStr: "7"}}
 
 // verifMkOut: the decode outcome of a payload: up to max elements (null, valid, invalid in the module's ways);
@@ -185,6 +185,8 @@ func verifWantItems(items []SpecificValue) map[interface{}]int64 {
 		case KindInt:
 			if it.ValStr == "7" {
 				m[int(7)] = it.Threshold
+			} else if it.ValStr == "13800138000" { // an int value is a Go int (64 bits on the supported platforms)
+				m[int(13800138000)] = it.Threshold
 			}
 		case KindString:
 			m[it.ValStr] = it.Threshold
